@@ -121,6 +121,17 @@ func vfTrunc(b []byte) []byte {
 	return b
 }
 
+// vfSafeRead: a panic inside Read is an observation, not a crash of the driver
+func vfSafeRead(c *HijackClientHelloConn, b []byte) (n int, err error, pan any) {
+	defer func() {
+		if p := recover(); p != nil {
+			pan = p
+		}
+	}()
+	n, err = c.Read(b)
+	return
+}
+
 func (w *vfC04Walker) dfs(node int, c *HijackClientHelloConn, stream []byte, pos int, trail []int) {
 	w.seenNode[node] = true
 	if len(w.g.out[node]) == 0 {
@@ -151,7 +162,13 @@ func (w *vfC04Walker) dfs(node int, c *HijackClientHelloConn, stream []byte, pos
 				w.readbuf = make([]byte, n+16)
 			}
 			rb := w.readbuf[:n+16]
-			got, err := nc.Read(rb)
+			got, err, pan := vfSafeRead(nc, rb)
+			if pan != nil {
+				w.res.violate(map[string]any{"check": "C04", "kind": "panic_in_read", "model": w.model},
+					fmt.Sprintf("Read of a %d-byte segment at offset %d panicked: %v", n, pos, pan),
+					map[string]any{"stream_prefix": vfTrunc(stream), "reads": append(trail, n)})
+				continue
+			}
 			if err != nil || got != n || !bytes.Equal(rb[:got], stream[pos:pos+n]) {
 				w.res.violate(map[string]any{"check": "C04", "kind": "not_transparent", "model": w.model},
 					fmt.Sprintf("Read returned (%d,%v) / different bytes for a %d-byte segment at %d", got, err, n, pos),
@@ -166,7 +183,11 @@ func (w *vfC04Walker) dfs(node int, c *HijackClientHelloConn, stream []byte, pos
 			sc.next = nil
 			sc.err = errors.New("connection reset by peer")
 			rb := make([]byte, 16)
-			got, err := nc.Read(rb)
+			got, err, pan := vfSafeRead(nc, rb)
+			if pan != nil {
+				w.res.violate(map[string]any{"check": "C04", "kind": "panic_in_read", "model": w.model}, fmt.Sprintf("Read panicked when the underlying conn failed: %v", pan), map[string]any{"reads": trail})
+				continue
+			}
 			if err == nil || got != 0 {
 				w.res.violate(map[string]any{"check": "C04", "kind": "error_swallowed", "model": w.model},
 					fmt.Sprintf("Read returned (%d,%v) when the underlying conn failed", got, err), map[string]any{"reads": trail})
